@@ -203,21 +203,29 @@ def checkImplicit (c : Ctx) (h : Nat) : Option Bool := (tableOf c.z).map (checkW
 
 /-! ## molecule level -/
 
+/-- `(bond.order, self._atoms[m].atomic_number)` for one item of `_bonds[n]`; `none` = `KeyError` -/
+def nbrEntry (atoms : List (Nat × Atom)) (kb : Nat × Bond) : Option BE :=
+  (atoms.lookup kb.1).map fun (x : Atom) => (kb.2.order, x.z)
+
 /-- the context `calc_implicit(n)` reads from `_atoms` / `_bonds`; `none` = `KeyError` -/
-def ctxOf (m : Mol) (n : Nat) : Option Ctx := do
-  let a ← m.atoms.lookup n
-  let nb ← m.adj.lookup n
-  let bs ← nb.mapM fun (k, b) => (m.atoms.lookup k).map fun x => (b.order, x.z)
-  pure ⟨a.z, a.charge, a.radical, bs⟩
+def ctxOf (m : Mol) (n : Nat) : Option Ctx :=
+  match m.atoms.lookup n, m.adj.lookup n with
+  | some a, some nb => (nb.mapM (nbrEntry m.atoms)).map fun bs => ⟨a.z, a.charge, a.radical, bs⟩
+  | _, _ => none
 
 /-- new `_implicit_hydrogens` of atom `n` -/
 def calcImplicitMol (m : Mol) (n : Nat) : Option (Option Nat) := (ctxOf m n).bind calcImplicit
 
 def checkImplicitMol (m : Mol) (n : Nat) (h : Nat) : Option Bool := (ctxOf m n).bind (checkImplicit · h)
 
-/-- assignment `atom._implicit_hydrogens = h` for the atom stored under key `n` -/
-def setH (m : Mol) (n : Nat) (h : Option Nat) : Mol :=
-  { m with atoms := m.atoms.map fun p => if p.1 == n then (p.1, { p.2 with implH := h }) else p }
+/-- `atom._implicit_hydrogens = h` -/
+def withH (a : Atom) (h : Option Nat) : Atom := { a with implH := h }
+
+def setHEntry (n : Nat) (h : Option Nat) (p : Nat × Atom) : Nat × Atom :=
+  if p.1 == n then (p.1, withH p.2 h) else p
+
+/-- assignment `self._atoms[n]._implicit_hydrogens = h` -/
+def setH (m : Mol) (n : Nat) (h : Option Nat) : Mol := { m with atoms := m.atoms.map (setHEntry n h) }
 
 /-- `for n in self._atoms: self.calc_implicit(n)` (the hydrogen part of `fix_structure`, `_changed` empty) -/
 def fixLoop : List Nat → Mol → Option Mol
@@ -242,12 +250,19 @@ def counterAdd : List (String × Nat) → String → Nat → List (String × Nat
   | [], k, v => [(k, v)]
   | (k', c) :: tl, k, v => if k' == k then (k', c + v) :: tl else (k', c) :: counterAdd tl k v
 
-/-- Σ implicit hydrogens; `none` = `TypeError` (`int + None`) -/
-def implicitTotal : List (Nat × Atom) → Option Nat
+/-- `c[k]` of a `Counter`: 0 when absent -/
+def counterGet (c : List (String × Nat)) (k : String) : Nat := (c.lookup k).getD 0
+
+/-- `sum(...)` of a generator whose terms may fail (`None` in arithmetic raises `TypeError`): `none` as soon as
+    one term is `none`, otherwise the sum. -/
+def optSum : List (Option Nat) → Option Nat
   | [] => some 0
-  | (_, a) :: tl => match a.implH, implicitTotal tl with
+  | x :: tl => match x, optSum tl with
     | some h, some s => some (h + s)
     | _, _ => none
+
+/-- `sum(a.implicit_hydrogens for _, a in self.atoms())`; `none` = `TypeError` (`int + None`) -/
+def implicitTotal (atoms : List (Nat × Atom)) : Option Nat := optSum (atoms.map (·.2.implH))
 
 /-- `atomic_symbol` through the regenerated table; `none` if the number is unknown -/
 def symOf (z : Nat) : Option String := (rowOfZ periodicTable z).map (·.sym)
@@ -275,15 +290,21 @@ def atomicMassPico (r : ElemRow) : Option Nat → Option Nat
       | some s, some mv => some (s + ix.2 * mv)
       | _, _ => none) (some 0)
 
-/-- `molecular_mass` in 10⁻¹² units: `sum(a.atomic_mass + a.implicit_hydrogens * h)` -/
+/-- one term `a.atomic_mass + a.implicit_hydrogens * h` (10⁻¹² units); `none` = the term raises -/
+def massTerm (hm : Nat) (a : Atom) : Option Nat :=
+  match (rowOfZ periodicTable a.z).bind (atomicMassPico · a.isotope), a.implH with
+  | some am, some h => some (am + h * hm)
+  | _, _ => none
+
+/-- `_H().atomic_mass` -/
+def hydrogenMassPico : Option Nat := (rowOfZ periodicTable 1).bind (atomicMassPico · none)
+
+/-- `molecular_mass` in 10⁻¹² units: `sum(a.atomic_mass + a.implicit_hydrogens * h for _, a in self.atoms())` -/
 def molecularMassPico (m : Mol) : Except PyErr Nat :=
-  match (rowOfZ periodicTable 1).bind (atomicMassPico · none) with
+  match hydrogenMassPico with
   | none => .error .typeError
-  | some hm =>
-    m.atoms.foldl (fun acc (p : Nat × Atom) => match acc with
-      | .error e => .error e
-      | .ok s => match (rowOfZ periodicTable p.2.z).bind (atomicMassPico · p.2.isotope), p.2.implH with
-        | some am, some h => .ok (s + am + h * hm)
-        | _, _ => .error .typeError) (.ok 0)
+  | some hm => match optSum (m.atoms.map fun p => massTerm hm p.2) with
+    | none => .error .typeError
+    | some s => .ok s
 
 end ChythonModel.Model.Valence
